@@ -39,7 +39,7 @@ def _copy_pkg(src_root: Path, dst_root: Path) -> None:
 
 
 def apply_edits(root: Path, m: dict) -> str | None:
-    edits = m.get("edits") or [{"file": m["file"], "find": m["find"], "replace": m["replace"]}]
+    edits = m.get("edits") or [{"file": m["file"], "find": m["find"], "replace": m["replace"], "nth": m.get("nth")}]
     for e in edits:
         f = root / e["file"]
         if not f.exists():
